@@ -66,7 +66,7 @@ func c13Cases() []c13Params {
 		p.Victim = rng.Intn(p.N)
 		p.Joiner = rng.Bool()
 		p.ForcedLeave = true
-		p.Restarts = vfPick(10, 0)
+		p.Restarts = vfPick(16, 0)
 		out = append(out, p)
 	}
 	return out
